@@ -21,6 +21,18 @@ CONF = cfg.CONF
 LOG = logging.getLogger(__name__)
 
 
+def finite_only(obj):
+    """JSON has no tokens for the IEEE 754 infinities and NaN (json.dump would write Infinity / NaN, which no line of the
+    message file may contain): such numbers - a BGP-LS bandwidth taken from the wire can be one - are written as text"""
+    if isinstance(obj, float) and (obj != obj or obj in (float('inf'), float('-inf'))):
+        return repr(obj)
+    if isinstance(obj, dict):
+        return dict((k, finite_only(v)) for k, v in obj.items())
+    if isinstance(obj, (list, tuple)):
+        return [finite_only(v) for v in obj]
+    return obj
+
+
 MSG_PROCESS_OPTS = [
     cfg.BoolOpt('write_disk',
                 default=True,
@@ -159,7 +171,7 @@ class DefaultHandler(BaseHandler):
             }
             msg_record.update(msg)
             try:
-                json.dump(msg_record, msg_file)
+                json.dump(finite_only(msg_record), msg_file)
             except Exception as e:
                 LOG.error(e)
                 LOG.info('raw message %s', msg)
